@@ -319,6 +319,14 @@ func (env *SpecEnv) tryLookup(name string) (*Val, bool) {
 		if g, ok := env.fr.ghosts[name]; ok {
 			return g, true
 		}
+		// a ghost let that is declared but not (yet) bound on this path: an unknown value
+		if env.fr.c != nil {
+			for _, ac := range env.fr.c.AtCalls {
+				if ac.Kind == "let" && ac.Let == name {
+					return &Val{T: env.fr.vc.S.FreshConst("unbound."+name, "Bool"), Typ: types.Typ[types.Bool]}, true
+				}
+			}
+		}
 		if v := env.fr.lookupLocal(name, env.block, env.idx, env.curHeap(), env.inOld || env.entryParams); v != nil {
 			return v, true
 		}
@@ -667,6 +675,23 @@ func (env *SpecEnv) call(x *CallE) *Val {
 		argn(1)
 		vc.needStrLower()
 		return &Val{T: "(str-lower " + vc.term(env.eval(x.Args[0])) + ")", Typ: types.Typ[types.String]}
+	case "isfunc":
+		// isfunc(x, "F$1"): x is the function value / closure of the named function of this package
+		argn(2)
+		sl, ok := x.Args[1].(*StrLit)
+		if !ok {
+			env.fail("isfunc(x, \"name\")")
+		}
+		vc.S.DeclareRaw("fn:closure-tag", "(declare-fun closure-tag (Int) Int)")
+		return boolVal(eq("(closure-tag "+vc.term(env.eval(x.Args[0]))+")", fmt.Sprint(funcTag(env.pkgPath()+"."+sl.V))))
+	case "ifaceval":
+		argn(1)
+		return intVal("(if-val " + vc.term(env.eval(x.Args[0])) + ")")
+	case "arrstr":
+		// arrstr(a, n): the string made of the first n bytes of array a
+		argn(2)
+		vc.needStrOfBytes()
+		return &Val{T: fmt.Sprintf("(str-of-bytes %s 0 %s)", vc.term(env.eval(x.Args[0])), vc.term(env.eval(x.Args[1]))), Typ: types.Typ[types.String]}
 	case "zeros":
 		// zeros(): the all-zero byte array
 		argn(0)
